@@ -807,8 +807,8 @@ pub fn exec(w: &mut World, op: &J) -> StepOut {
                 if n > 0 && b.as_ptr() as usize != STATIC_DATA.as_ptr() as usize + off {
                     w.v(&["C07"], "copied:from_static", format!("from_static: result does not point at the static data"));
                 }
-                if any_alloc_events(&ev) > 0 {
-                    w.v(&["C07"], "allocated:from_static", format!("from_static allocated ({} events)", ev.len()));
+                if byte_buffer_allocs(&ev) > 0 {
+                    w.v(&["C07"], "allocated:from_static", format!("from_static allocated a byte buffer ({} events)", ev.len()));
                 }
                 w.slots.insert(nid(uid, 0), Slot { real: Real::B(b), model: STATIC_DATA[off..off + n].to_vec(), origin: Origin::Static });
             }
@@ -1128,7 +1128,7 @@ pub fn exec(w: &mut World, op: &J) -> StepOut {
                     s.model.truncate(n);
                 }
                 let v1 = s.view();
-                if v1.ptr != v0.ptr {
+                if v1.len > 0 && v1.ptr != v0.ptr {
                     w.v(&["C07"], "address:truncate", format!("h{}.{}({}) moved the handle", h, name, n));
                 }
                 if byte_buffer_allocs(&ev) > 0 {
@@ -1161,7 +1161,7 @@ pub fn exec(w: &mut World, op: &J) -> StepOut {
                 if exp == Exp::Ok {
                     s.model.drain(..n);
                     let v1 = s.view();
-                    if v1.ptr != v0.ptr + n {
+                    if v1.len > 0 && v1.ptr != v0.ptr + n {
                         w.v(&["C07"], "address:advance", format!("h{}.advance({}): address moved by {}", h, n, v1.ptr as isize - v0.ptr as isize));
                     }
                     if byte_buffer_allocs(&ev) > 0 {
@@ -1464,11 +1464,11 @@ pub fn exec(w: &mut World, op: &J) -> StepOut {
                     s.model.truncate(n);
                 }
                 let v1 = s.view();
-                if v1.ptr != v0.ptr || v1.cap != v0.cap {
+                if (v1.len > 0 && v1.ptr != v0.ptr) || v1.cap != v0.cap {
                     w.v(&["C07", "C04"], "address:m_truncate", format!("h{}.{}({}): ptr moved by {}, capacity {} -> {}", h, name, n, v1.ptr as isize - v0.ptr as isize, v0.cap, v1.cap));
                 }
-                if any_alloc_events(&ev) > 0 {
-                    w.v(&["C07"], "allocated:m_truncate", format!("h{}.{}({}) allocated", h, name, n));
+                if byte_buffer_allocs(&ev) > 0 {
+                    w.v(&["C07"], "allocated:m_truncate", format!("h{}.{}({}) allocated a byte buffer", h, name, n));
                 }
             }
             w.slots.insert(h, s);
